@@ -371,6 +371,10 @@ func (c *Cluster) installHooks() {
 	node.SimDefer = func(wake func()) { c.wakeups = append(c.wakeups, wake) }
 	// lock gaps without a transport call (H9): an interleaved gossip may be parked there too
 	node.SimYield = func(nd *node.Node, site string) {
+		if site == "ff.between" {
+			c.ffWindowIntrusion(nd)
+			return
+		}
 		t := c.curTask
 		if t == nil || t.kind != "gossip" || t.plan == nil {
 			return
